@@ -94,7 +94,9 @@ def task(W, payload):
     # every flow-adding call must create the same number of flows as the model does (selection by name and strata), whatever happens later
     for d in S.log:
         if d.get("stage") == "S1" and d.get("what") in ("n_flows", "raise/no-raise"):
-            d = dict(d); d["prescribed"] = d["what"] == "n_flows" and d.get("op", {}).get("op") == "flow"
+            # (a flow-adding call that the code refuses although the model — whose selections are proved to be the documented ones — accepts it
+            # has selected other compartments than documented: unequal numbers of sources and destinations)
+            d = dict(d); d["prescribed"] = d.get("op", {}).get("op") == "flow" and (d["what"] == "n_flows" or str(d.get("impl", "")).startswith("raised"))
             d["task"] = {"module": "c13", "fn": "task", "payload": payload}; d["program"] = prog["build"]
             out["diffs"].append(d)
     if not built:
